@@ -288,9 +288,9 @@ CMR_ERROR CMRctuTest(CMR* cmr, CMR_CHRMAT* matrix, bool* pisComplementTotallyUni
       if (!isTU)
       {
         if (pcomplementRow)
-          *pcomplementRow = complementRow;
+          *pcomplementRow = hasComplementRow ? complementRow : SIZE_MAX;
         if (pcomplementColumn)
-          *pcomplementColumn = complementColumn;
+          *pcomplementColumn = hasComplementColumn ? complementColumn : SIZE_MAX;
 
         *pisComplementTotallyUnimodular = false;
         break;
